@@ -370,7 +370,32 @@ func buildAll(scratch, key string, b Build, pkgs map[string]bool) (map[string]st
 		}
 		overlay[filepath.Join(repo, "internal/xruntime/rand_1.22.go")] = fr
 	} else if len(b.Consts) > 0 {
-		return nil, fmt.Errorf("consts need a sched build")
+		// plain build: textual replacement of single-line `const NAME = expr` declarations (nothing else is rewritten)
+		for k, v := range b.Consts {
+			i := strings.IndexByte(k, ':')
+			if i < 0 {
+				return nil, fmt.Errorf("const key %q: want file.go:NAME", k)
+			}
+			file, name := k[:i], k[i+1:]
+			orig := filepath.Join(repo, "internal", file)
+			src, err := os.ReadFile(orig)
+			if err != nil {
+				return nil, err
+			}
+			re := regexp.MustCompile(`(?m)^const ` + regexp.QuoteMeta(name) + ` = .*$`)
+			if !re.Match(src) {
+				return nil, fmt.Errorf("const %s not found in %s", name, file)
+			}
+			out := re.ReplaceAll(src, []byte("const "+name+" = "+v))
+			g := filepath.Join(dir, "gen", "const_"+file)
+			if err := os.MkdirAll(filepath.Dir(g), 0o755); err != nil {
+				return nil, err
+			}
+			if err := os.WriteFile(g, out, 0o644); err != nil {
+				return nil, err
+			}
+			overlay[orig] = g
+		}
 	}
 	// runtime tree
 	rt := filepath.Join(verifDir, "rt", "vrt")
